@@ -10,6 +10,7 @@ import YV.Drv.V
 import YV.Drv.Cm
 import YV.Drv.Md
 import YV.Drv.Xp
+import YV.Drv.En
 open Lean YV.Drv
 
 def dispatch (j : Json) : List (String × Json) :=
@@ -28,6 +29,8 @@ def dispatch (j : Json) : List (String × Json) :=
   | "yuses" => Cm.handleUses j
   | "ymods" => Md.handle j
   | "yxp" => Xp.handle j
+  | "yenc" => En.handle j
+  | "yencfuzz" => En.handleFuzz j
   | "yvals" => V.handle j
   | k => [("m", Json.str ("unknown-kind:" ++ k)), ("s", Json.str "unknown-kind")]
 
